@@ -85,6 +85,10 @@ def cases(rng, tier):
 	yield ('acc', 'Accept-Language', b'es-419;q=0.8, en, de-CH-1996;q=0.5, zh-Hant-TW, *;q=0.1, x-klingon, i-enochian')
 	yield ('acc', 'Accept-Charset', b'iso-8859-1, utf-8;q=0.9, windows-1252;q=0.1, x-mac_roman')
 	yield ('acc', 'Accept-Encoding', b'x-compress, br;q=1.0, zstd;q=0.9, identity;q=0')
+	# a weight written twice, weights with stray quotes: not numbers
+	for v in (b'text/html;q=0.5;q=high', b'text/html;q=high;q=0.5', b'a/b;q=0.5", c/d', b'a/b;q="0.7, c/d', b'a/b;q=0.2"", c/d', b'a/b;q="0.8", c/d;q=0.1', b'a/b;q=\'0.5\''):
+		for name_ in ('Accept', 'Accept-Language', 'TE'):
+			yield ('acc', name_, v)
 	n = 6000 if tier == 'thorough' else 1500
 	for _ in range(n):
 		name = rng.choice(NAMES)
